@@ -1,5 +1,4 @@
 SPECIFICATION Spec
 CONSTANTS
   NChunks = 1
-INVARIANT AllPreserved
 CHECK_DEADLOCK FALSE
